@@ -1,7 +1,7 @@
 // Package cond is the machinery shared by the condition properties C02, C08 and
 // C09: a small condition-tree type over the columns
 //
-//	id int, ca int, cb int, cs text, cn int NULL, ct text NULL
+//	id int, ca int, cb int, cs text, cn int NULL, ct text NULL, cor int, band text
 //
 // a Kleene three-valued evaluator of such trees over in-memory rows, the
 // renderings of a tree into every form gorm accepts as a condition ("unit"),
@@ -70,7 +70,11 @@ type Row struct {
 	Cs     string
 	Cn     *int
 	Ct     *string
-	FK     int // foreign key of a related table's row (pseudo column "fk"), 0 = none
+	// Cor / Band: an integer and a text column whose NAMES contain the letters of
+	// the keywords OR / AND (the builder scans raw conditions for those keywords)
+	Cor  int
+	Band string
+	FK   int // foreign key of a related table's row (pseudo column "fk"), 0 = none
 }
 
 // Col returns the value of the named column and whether it is NULL.
@@ -86,6 +90,10 @@ func (r Row) Col(name string) (Val, bool) {
 		return IntV(r.Cb), false
 	case "cs":
 		return StrV(r.Cs), false
+	case "cor":
+		return IntV(r.Cor), false
+	case "band":
+		return StrV(r.Band), false
 	case "cn":
 		if r.Cn == nil {
 			return Val{}, true
@@ -108,18 +116,18 @@ func (r Row) String() string {
 	if r.Ct != nil {
 		ct = strconv.Quote(*r.Ct)
 	}
-	return fmt.Sprintf("{id:%d ca:%d cb:%d cs:%q cn:%s ct:%s}", r.ID, r.Ca, r.Cb, r.Cs, cn, ct)
+	return fmt.Sprintf("{id:%d ca:%d cb:%d cs:%q cn:%s ct:%s cor:%d band:%q}", r.ID, r.Ca, r.Cb, r.Cs, cn, ct, r.Cor, r.Band)
 }
 
 // IsText reports whether the column holds text.
-func IsText(col string) bool { return col == "cs" || col == "ct" }
+func IsText(col string) bool { return col == "cs" || col == "ct" || col == "band" }
 
 // Nullable reports whether the column may hold NULL.
 func Nullable(col string) bool { return col == "cn" || col == "ct" }
 
 // DataCols are the columns conditions are generated over (id is used by the
 // primary-key forms only).
-var DataCols = []string{"ca", "cb", "cs", "cn", "ct"}
+var DataCols = []string{"ca", "cb", "cs", "cn", "ct", "cor", "band"}
 
 // ---- three-valued logic ----------------------------------------------------------------------
 
